@@ -56,6 +56,11 @@ fn mutate_leaf(rng: &mut Rng, leaf: &Value, siblings: &[Value]) -> Vec<(&'static
                 if !s.is_empty() {
                     out.push(("string-hex-spelling", json!(hex::encode(s.as_bytes()))));
                 }
+                // white space / terminators a lenient reader might strip
+                out.push(("string-leading-space", json!(format!(" {}", s))));
+                out.push(("string-trailing-space", json!(format!("{} ", s))));
+                out.push(("string-trailing-newline", json!(format!("{}\n", s))));
+                out.push(("string-trailing-nul", json!(format!("{}\u{0}", s))));
                 if let Some(t) = hex::decode(s).ok().and_then(|b| String::from_utf8(b).ok()) {
                     if !t.is_empty() {
                         out.push(("string-hex-decoded", json!(t)));
@@ -127,7 +132,7 @@ fn c11_suite<S: ShortGroupSignatureScheme>(em: &mut Emitter, base: &mut Rng, sui
             mix = Mix { n_creds: 1, n_claims: 3, disclosed: vec![vec!["name".into()]], commitment: Some(2), range: Some(if suite == "bbs" { (Some(i64::MIN), None) } else { (None, Some(i64::MAX)) }), age: -3, ..Default::default() };
         }
         if k == 0 {
-            mix = Mix { n_creds: 2, n_claims: 4, disclosed: vec![vec!["city".into()], vec!["age".into()]], revocation: true, membership: true, equality: true, commitment: Some(2), range: Some((Some(0), Some(150))), verenc: Some((3, true)), ved: None, age: 40, shuffle: false };
+            mix = Mix { n_creds: 2, n_claims: 4, disclosed: vec![vec!["city".into()], vec!["age".into()]], revocation: true, membership: true, equality: true, commitment: Some(2), range: Some((Some(0), Some(150))), verenc: Some((3, true)), ved: None, age: 40, shuffle: false, zero_ssn: false };
             mix.disclosed = vec![vec![], vec!["age".into()]];
         }
         if k == 1 {
@@ -352,7 +357,7 @@ fn c04_suite<S: ShortGroupSignatureScheme>(em: &mut Emitter, base: &mut Rng, sui
         let rng = &mut base.sub((2 * k + off) as u64);
         let mut mix = Mix::random(rng, k % 3 == 0);
         if k == 0 {
-            mix = Mix { n_creds: 2, n_claims: 4, disclosed: vec![vec![], vec!["age".into()]], revocation: true, membership: true, equality: true, commitment: Some(2), range: Some((Some(0), Some(150))), verenc: Some((3, false)), ved: Some(3), age: 40, shuffle: false };
+            mix = Mix { n_creds: 2, n_claims: 4, disclosed: vec![vec![], vec!["age".into()]], revocation: true, membership: true, equality: true, commitment: Some(2), range: Some((Some(0), Some(150))), verenc: Some((3, false)), ved: Some(3), age: 40, shuffle: false, zero_ssn: false };
         }
         if k == 1 {
             // predicates on a claim that an equality statement ties across two credentials: the shared
@@ -362,6 +367,19 @@ fn c04_suite<S: ShortGroupSignatureScheme>(em: &mut Emitter, base: &mut Rng, sui
         let mut scn = Scn::<S>::build(rng, &mix);
         if k % 2 == 0 && scn.nonce.is_empty() {
             scn.nonce = rng.bytes(16);
+        }
+        // nonces with leading / trailing zero bytes, and all-zero nonces
+        match k % 5 {
+            1 => {
+                scn.nonce = [vec![0u8, 0], rng.bytes(14)].concat();
+            }
+            2 => {
+                scn.nonce = [rng.bytes(14), vec![0u8, 0]].concat();
+            }
+            3 => {
+                scn.nonce = vec![0u8; 8];
+            }
+            _ => {}
         }
         // schema ids as `PresentationSchema::new` makes them (hex of 16 random bytes) and ids that spell printable text in hex
         if k % 3 == 1 {
@@ -387,6 +405,32 @@ fn c04_suite<S: ShortGroupSignatureScheme>(em: &mut Emitter, base: &mut Rng, sui
         let mut n = scn.nonce.clone();
         n.push(0);
         nonces.push(("extended by 00".into(), n));
+        // paddings a reader that treats the nonce as a number / C string might identify with the original
+        for (how, pre, post) in [("prefixed by 00", vec![0u8], vec![]), ("prefixed by 00 00", vec![0u8, 0], vec![]), ("extended by 00 00", vec![], vec![0u8, 0]), ("extended by 20", vec![], vec![0x20u8]), ("prefixed by 20", vec![0x20u8], vec![])] {
+            let mut n = pre.clone();
+            n.extend_from_slice(&scn.nonce);
+            n.extend_from_slice(&post);
+            nonces.push((how.into(), n));
+        }
+        let lead = scn.nonce.iter().take_while(|b| **b == 0).count();
+        if lead > 0 {
+            nonces.push(("one leading zero byte removed".into(), scn.nonce[1..].to_vec()));
+            nonces.push(("leading zero bytes removed".into(), scn.nonce[lead..].to_vec()));
+        }
+        let trail = scn.nonce.iter().rev().take_while(|b| **b == 0).count();
+        if trail > 0 && trail < scn.nonce.len() {
+            nonces.push(("trailing zero bytes removed".into(), scn.nonce[..scn.nonce.len() - trail].to_vec()));
+        }
+        if !scn.nonce.is_empty() && scn.nonce.iter().all(|b| *b == 0) {
+            nonces.push(("all-zero nonce of another length".into(), vec![0u8; scn.nonce.len() + 3]));
+        }
+        {
+            let mut r = scn.nonce.clone();
+            r.reverse();
+            if r != scn.nonce {
+                nonces.push(("byte order reversed".into(), r));
+            }
+        }
         if !scn.nonce.is_empty() {
             nonces.push(("truncated".into(), scn.nonce[..scn.nonce.len() - 1].to_vec()));
             nonces.push(("emptied".into(), vec![]));
